@@ -184,13 +184,13 @@ pub enum Line {
     Once,
     Warning,
     Text(Vec<Tok>),
-    /// a directive line that is rejected (request `X kind`): `P` = `#pragma foo`, `P0` = `#pragma`, `C` = `#foo`,
+    /// a directive line that is rejected (request `X kind`): `P` = `#pragma foo`, `P0` = `#pragma`, `C` = `#foo`, `C1` = `#1 foo`,
     /// `I0` = `#include`, `I1` = `#include foo`, `I2` = `#include "f1" x`
     Bad(&'static str),
 }
 
 const BAD_KINDS: &[(&str, &str)] =
-    &[("P", "pragma foo"), ("P0", "pragma"), ("C", "foo"), ("I0", "include"), ("I1", "include foo"), ("I2", "include \"f1\" x")];
+    &[("P", "pragma foo"), ("P0", "pragma"), ("C", "foo"), ("C1", "1 foo"), ("I0", "include"), ("I1", "include foo"), ("I2", "include \"f1\" x")];
 
 #[derive(Clone, Debug)]
 pub struct File {
@@ -1390,7 +1390,8 @@ fn ref_file_marked(r: &mut Reference, st: &mut RefRun) -> Result<(), RefErr> {
 
 const MACRO_NAMES: &[&str] = &["A", "B", "C", "D", "E", "F"];
 const PARAM_NAMES: &[&str] = &["X", "Y", "Z"];
-const PLAIN: &[&str] = &["P", "Q", "R", "AB", "P1"];
+/// (`defined` is an ordinary identifier outside `#if` / `#elif`: wave 5)
+const PLAIN: &[&str] = &["P", "Q", "R", "AB", "P1", "P", "Q", "R", "AB", "P1", "defined"];
 
 struct GenMacro {
     name: String,
@@ -1470,23 +1471,67 @@ impl<'a> Gen<'a> {
             let mi = self.rng.below(self.macros.len() as u64) as usize;
             self.invocation(mi, params, depth, out, budget);
         } else if r < 5 && *budget > 4 {
-            // parenthesised group with a comma inside
-            push_sep(out);
-            out.push(Tok::LParen);
-            let t = self.atom(params);
-            out.push(t);
-            out.push(Tok::Comma);
-            let t = self.atom(params);
-            out.push(t);
-            out.push(Tok::RParen);
-            *budget -= 5;
-            self.hist.add("site:nested-parentheses-with-comma");
+            if self.rng.chance(1, 2) {
+                // parenthesised group with a comma inside
+                push_sep(out);
+                out.push(Tok::LParen);
+                let t = self.atom(params);
+                out.push(t);
+                out.push(Tok::Comma);
+                let t = self.atom(params);
+                out.push(t);
+                out.push(Tok::RParen);
+                *budget -= 5;
+                self.hist.add("site:nested-parentheses-with-comma");
+            } else {
+                // wave 5: groups of any shape -- empty, one item, several, nested in each other, commas behind an inner `)`
+                push_sep(out);
+                let d = self.group(params, depth, 1, out, budget);
+                self.hist.add(&format!("site:parenthesised-group-depth-{}", d));
+            }
         } else {
             push_sep(out);
             let t = self.atom(params);
             out.push(t);
             *budget -= 1;
         }
+    }
+
+    /// `(` items separated by commas `)`; an item is empty, an atom, two atoms, a nested group or an element (which may be
+    /// an invocation); returns the nesting depth reached
+    fn group(&mut self, params: usize, depth: u32, level: u32, out: &mut Vec<Tok>, budget: &mut i32) -> u32 {
+        out.push(Tok::LParen);
+        *budget -= 2;
+        let mut deepest = level;
+        let n = self.rng.below(4);
+        for i in 0..n {
+            if i > 0 {
+                out.push(Tok::Comma);
+                if self.rng.chance(1, 3) {
+                    out.push(Tok::Ws);
+                }
+            }
+            match self.rng.below(8) {
+                0 => {}
+                1 | 2 if level < 3 && *budget > 2 => {
+                    let d = self.group(params, depth, level + 1, out, budget);
+                    deepest = deepest.max(d);
+                    if self.rng.chance(1, 3) {
+                        let t = self.atom(params);
+                        out.push(Tok::Ws);
+                        out.push(t);
+                    }
+                }
+                3 if *budget > 3 => self.element(params, depth + 1, out, budget),
+                _ => {
+                    let t = self.atom(params);
+                    out.push(t);
+                    *budget -= 1;
+                }
+            }
+        }
+        out.push(Tok::RParen);
+        deepest
     }
 
     fn body(&mut self, params: usize, self_index: usize) -> Vec<Tok> {
@@ -1855,6 +1900,26 @@ fn generate(rng: &mut Rng, hist: &mut Hist) -> Vec<Program> {
             let at = safe_pos(&files[i].lines, at.min(files[i].lines.len()));
             files[i].lines.insert(at, Line::Include(name));
             g.hist.add("include:cycle-without-pragma-once");
+        }
+    }
+    // wave 5: `#pragma once` that is not the first line of its file (in force from that line on: an include of the file
+    // in front of it, or a repeated include, still sees the text), and in the entry file (included back by another file)
+    for i in 0..nfiles {
+        if !once[i] && g.rng.chance(1, 6) {
+            let at = g.rng.below(files[i].lines.len() as u64 + 1) as usize;
+            let at = safe_pos(&files[i].lines, at.min(files[i].lines.len()));
+            files[i].lines.insert(at, Line::Once);
+            g.hist.add(if i == 0 { "file:pragma-once-in-entry-file" } else { "file:pragma-once-not-first-line" });
+            if g.rng.chance(1, 2) && nfiles > 1 {
+                // somebody includes the file (again): behind or in front of the mark
+                let from = g.rng.below(nfiles as u64) as usize;
+                let at = g.rng.below(files[from].lines.len() as u64 + 1) as usize;
+                let at = if once[from] { at.max(1) } else { at };
+                let at = safe_pos(&files[from].lines, at.min(files[from].lines.len()));
+                let name = files[i].name.clone();
+                files[from].lines.insert(at, Line::Include(name));
+                g.hist.add("include:of-late-once-file");
+            }
         }
     }
     // every placement of the leading definitions: all in the file / all in the API list / a random split
